@@ -24,6 +24,7 @@ type CaseC12 struct {
 	Pairs     []PairC12              `json:"pairs"`
 	Unrelated uint16                 `json:"unrelated_opts,omitempty"`
 	FieldSep  string                 `json:"field_sep,omitempty"` // sub-key field separator in force (NewMap pairs always use ":")
+	Alias     *AliasSpec             `json:"alias,omitempty"`     // one container object gets a second parent in the receiver
 }
 
 func init() { register("C12", checkC12) }
@@ -83,6 +84,9 @@ func genC12(t *rapid.T) CaseC12 {
 		c.Pairs = append(c.Pairs, p)
 	}
 	c.Unrelated = genUnrelated(t)
+	if rapid.IntRange(0, 7).Draw(t, "alias") == 0 {
+		c.Alias = &AliasSpec{Src: rapid.IntRange(0, 30).Draw(t, "asrc"), Dst: rapid.IntRange(0, 30).Draw(t, "adst"), Key: rapid.SampledFrom([]string{"al", "a", "zz"}).Draw(t, "akey")}
+	}
 	if rapid.IntRange(0, 3).Draw(t, "fieldsep") == 0 {
 		c.FieldSep = rapid.SampledFrom([]string{"|", "::", "."}).Draw(t, "fsep")
 	}
@@ -132,6 +136,16 @@ func checkC12(c CaseC12, info *Info) *Failure {
 	}
 	info.ClassIf(c.Unrelated != 0, "unrelated options switched on")
 	subject := copyMap(c.Map)
+	if c.Alias != nil {
+		// the receiver holds one container object twice; the reference sees the same Map by value
+		byValue := copyMap(c.Map)
+		if applyAlias(subject, *c.Alias, true) && applyAlias(byValue, *c.Alias, false) {
+			c.Map = byValue
+			info.Class("shared sub-structure in the receiver")
+		} else {
+			subject = copyMap(c.Map)
+		}
+	}
 	js := canon(c.Map)
 	var pairs []string
 	malformed := false
